@@ -8,6 +8,7 @@ import (
 	"math"
 	"strings"
 	"testing"
+	"time"
 
 	"github.com/platinummonkey/go-concurrency-limits/core"
 	"github.com/platinummonkey/go-concurrency-limits/strategy"
@@ -643,4 +644,26 @@ func (o c03Op) String() string {
 		return fmt.Sprintf("add(%+v)", *o.Part)
 	}
 	return o.K
+}
+
+// TestC03_stacks: the bins seen through whole limiter stacks. A request reaches the strategy not only through
+// DefaultLimiter.Acquire but also through the hand-offs of the blocking, deadline and queue limiters and the pools,
+// which acquire on behalf of a waiting caller - possibly one whose context has been cancelled meanwhile. Whatever the
+// path, the token is charged to the partition of the caller's context: at every quiescent point each bin counts
+// exactly the outstanding tokens of its key, and in the end the stack admits like a freshly built one. Engine,
+// events and invariants are those of TestC02_stacks; the generator keeps to partitioned strategies.
+func TestC03_stacks(t *testing.T) {
+	kit.RequireMode(t, "std")
+	kit.Check(t, kit.Prop[c02Case]{
+		ID: "C03", Quick: 2500, Thor: 250_000,
+		Rule: "blocking / deadline / queue limiters and pools over a DefaultLimiter with a lookup or predicate partition strategy x event sequence on a virtual clock (arrivals with keys a / b / unknown, completions, cancellations, sleeps, same-instant bursts): at every quiescent point each bin counts exactly the outstanding tokens of its key and the bins sum to the total, at the end the stack admits like a fresh one; non-trivial = a completion while a caller was blocked and a caller that gave up",
+		Gen: func(t *rapid.T) c02Case {
+			c := genC02([]string{"blocking", "deadline", "queue", "queue", "queue", "fifo-dep", "lifo-dep", "pool"}, false)(t)
+			if c.Stack.Strategy != "lookup" && c.Stack.Strategy != "predicate" {
+				c.Stack.Strategy = rapid.SampledFrom([]string{"lookup", "predicate"}).Draw(t, "partitioned")
+			}
+			return c
+		},
+		Run: runC02, Timeout: 30 * time.Second,
+	})
 }
